@@ -334,6 +334,22 @@ def work_compound(idx, chunk, seed, n):
             part.count("compound_reference_abstains")
             continue
         judge(part, probe, reg, query, lv, rv, "compound")
+        if made % 20 == 0 and dims_key(lv.d) == dims_key(rv.d):
+            # whatever follows a complete target is part of the query: it must not be dropped silently
+            extra = rng.choice([" /* note */ s", " /**/ kg", ", s", " )", " -> inch", "\ns", " ; 5", " = = 2"])
+            q2 = query + extra
+            part.evaluations += 1
+            r2 = probe.eval(q2, timeout=30, spans=False, json=False)
+            k2 = (r2.get("r") or {}).get("kind", "")
+            if r2.get("panics"):
+                part.violation(panic_sig(r2["panics"][0]), {"query": q2, "panic": r2["panics"][0]}, "panic in a conversion")
+            elif k2 in ("conversion", "number") and extra.strip() not in ("/* note */", ):
+                part.violation({"kind": "tokens_after_target_ignored", "extra": extra.strip()[:12]},
+                               {"query": q2, "reply": (r2.get("text") or "")[:200]},
+                               "a conversion was answered although more tokens follow the target")
+            else:
+                part.count("tokens_after_target_refused")
+                part.seen("trailing|" + extra)
     return part.export()
 
 
